@@ -182,8 +182,8 @@ void fast_binary_dilate_erode_2d(numpy::aligned_array<bool> res, const numpy::al
             if (dx > Nx) dx = Nx;
             if (dx < -Nx) dx = -Nx;
             if (dy || dx) {
-                positions.push_back(is_erosion ? dy: -dy);
-                positions.push_back(is_erosion ? dx: -dx);
+                positions.push_back(dy);
+                positions.push_back(dx);
             }
         }
     }
@@ -202,31 +202,31 @@ void fast_binary_dilate_erode_2d(numpy::aligned_array<bool> res, const numpy::al
             if ((y + dy) >= Ny) {
                 dy = -y+(Ny-1);
             }
-            bool* out = orow;
-            const bool* in = array.data(y + dy);
             numpy::index_type n = Nx - t_abs(dx);
-            if (dx > 0) {
-                for (numpy::index_type i = 0; i != dx; ++i) {
-                    if (is_erosion) {
-                        out[Nx-i-1] &= in[Nx-1];
-                    } else {
-                        out[Nx-i-1] |= in[Nx-1];
-                    }
-                }
-                in += dx;
-            } else if (dx < 0) {
-                for (numpy::index_type i = 0; i != -dx; ++i) {
-                    if (is_erosion) {
-                        out[i] &= in[0];
-                    } else {
-                        out[i] |= in[0];
-                    }
-                }
-                out += -dx;
-            }
             if (is_erosion) {
+                // erosion gathers: out[y][x] &= in[y+dy][x+dx], reading the replicated edge
+                bool* out = orow;
+                const bool* in = array.data(y + dy);
+                if (dx > 0) {
+                    for (numpy::index_type i = 0; i != dx; ++i) out[Nx-i-1] &= in[Nx-1];
+                    in += dx;
+                } else if (dx < 0) {
+                    for (numpy::index_type i = 0; i != -dx; ++i) out[i] &= in[0];
+                    out += -dx;
+                }
                 for (numpy::index_type i = 0; i != n; ++i) *out++ &= *in++;
             } else {
+                // dilation scatters, exactly like the generic kernel: out[y+dy][x+dx] |= in[y][x],
+                // writes beyond the image landing on the edge
+                bool* out = res.data(y + dy);
+                const bool* in = array.data(y);
+                if (dx > 0) {
+                    for (numpy::index_type i = 0; i != dx; ++i) out[Nx-1] |= in[Nx-i-1];
+                    out += dx;
+                } else if (dx < 0) {
+                    for (numpy::index_type i = 0; i != -dx; ++i) out[0] |= in[i];
+                    in += -dx;
+                }
                 for (numpy::index_type i = 0; i != n; ++i) *out++ |= *in++;
             }
         }
